@@ -413,6 +413,18 @@ def run_case(case, rec, mon=None):
                 for f in os.listdir(d):
                     os.unlink(os.path.join(d, f))
                 os.rmdir(d)
+        if case["idx"] % 3 == 1:
+            # the object as a worker process gets it (deep copy, pickle round trip, shallow copy): the same statistics
+            from ..common import copied, COPY_WAYS
+
+            way = COPY_WAYS[(case["idx"] // 3) % 3]
+            try:
+                cp = monitor.adopt(copied(insts[0], way), insts[0])
+                mon.adopt(cp, insts[0])
+                insts.append(cp)
+                rec.count("statistics_used_through_a_%s" % way)
+            except Exception as e:
+                mon.v("copying (%s) a Standardize object raised %r" % (way, e), check="copy_raise", op="apply")
         # probes
         probes = []
         for _ in range(int(rng.integers(2, 6))):
